@@ -302,8 +302,13 @@ void rfbShutdownSockets(rfbScreenInfoPtr rfbScreen)
     rfbScreen->socketState = RFB_SOCKET_SHUTDOWN;
 
     if(rfbScreen->inetdSock!=RFB_INVALID_SOCKET) {
-	FD_CLR(rfbScreen->inetdSock,&rfbScreen->allFds);
-	rfbCloseSocket(rfbScreen->inetdSock);
+	/* Once rfbCheckFds() has handed the descriptor to rfbNewClientConnection() it belongs to that
+	   client (or was closed when the client could not be set up): closing the number again here
+	   would hit whatever owns it by now. */
+	if(!rfbScreen->inetdInitDone) {
+	    FD_CLR(rfbScreen->inetdSock,&rfbScreen->allFds);
+	    rfbCloseSocket(rfbScreen->inetdSock);
+	}
 	rfbScreen->inetdSock=RFB_INVALID_SOCKET;
     }
 
